@@ -68,10 +68,24 @@ def run(ctx):
         fn = F.fns[n]
         du = du_of(fn)
         plist = []
+        events = []
         for bid, t in fn.calls():
-            if callee_name(t) != "std::vec::Vec::<T, A>::push" or "header::Header" not in (t.get("arg_tys") or ["", ""])[1]:
-                continue
-            v = du.val_operand(t["args"][1])
+            cn_ = callee_name(t) or ""
+            tys = " ".join(t.get("arg_tys") or [])
+            if cn_ == "std::vec::Vec::<T, A>::push" and "header::Header" in (t.get("arg_tys") or ["", ""])[1]:
+                events.append((bid, t, du.val_operand(t["args"][1])))
+            elif (cn_.endswith("as std::iter::Extend<T>>::extend") or cn_.endswith("::extend_from_slice") or (t.get("callee") or "") == "std::iter::Extend::extend") \
+                    and "header::Header" in tys and len(t["args"]) == 2:
+                # `list.extend([h1, h2, ..])`: one push per element of the array literal
+                arr = du.val_operand(t["args"][1])
+                while arr[0] == "cast":
+                    arr = arr[2]
+                if arr[0] == "ref":
+                    arr = du.val_place(arr[1])
+                if arr[0] == "aggregate" and arr[1] == "array":
+                    for el in arr[3]:
+                        events.append((bid, t, el))
+        for bid, t, v in events:
             hn = hv = None
             vv = None
             if v[0] == "aggregate" and v[2] == "header::Header":
@@ -204,16 +218,16 @@ def run(ctx):
         fn = F.fns[n]
         if fn.ret != "std::vec::Vec<u8>" or not any(callee_name(t) == "response::Response::generate_body" for _, t in fn.calls()):
             continue
+        fn = ctx.inl(fn)        # the header loop may be a private helper taking `&response.headers`
         du_ = du_of(fn)
         found = False
         for bid, t in fn.calls():
             c = callee_name(t) or ""
-            if c.endswith("as std::iter::IntoIterator>::into_iter") and t["args"]:
+            if "IntoIterator" in c and c.endswith("::into_iter") and t["args"]:
                 a = t["args"][0]
                 v = du_.val_operand(a)
-                fields = []
-                if v[0] in ("place", "ref"):
-                    fields = [p[2] for p in v[1][1] if isinstance(p, tuple) and p[0] == "f"]
+                tgt = val_ref_target(du_, v) if v[0] == "call" else (v[1] if v[0] in ("place", "ref") else None)
+                fields = [p[2] for p in tgt[1] if isinstance(p, tuple) and p[0] == "f"] if tgt is not None else []
                 if fields == ["headers"]:
                     found = True
         r4.instance({"serialiser": n, "iterates_response_headers_directly": found}, found)
